@@ -328,7 +328,11 @@ func VH_C20_ClientDiagnostics() {
 		cl = NewWithPassword("u", "R", string(zzverif.Secret(8)), vhConfig(), Logger(lg), DisablePAFXFAST(true))
 	} else {
 		kt := keytab.New()
-		kt.VHAddEntry("R", []string{"u"}, 18, 1, zzverif.Secret(32), time.Unix(1500000000, 0))
+		kt.VHAddEntry("R", []string{"u"}, int32(zzverif.Param("ktetype")), 1, zzverif.Secret(32), time.Unix(1500000000, 0))
+		if zzverif.Param("ktetype") != 18 {
+			// a second key, of the configured enctype, next to the one the configuration does not list
+			kt.VHAddEntry("R", []string{"u"}, 18, 1, zzverif.Secret(32), time.Unix(1500000000, 0))
+		}
 		cl = NewWithKeytab("u", "R", kt, vhConfig(), Logger(lg), DisablePAFXFAST(true))
 	}
 	t0 := time.Unix(1600000000, 0)
